@@ -261,7 +261,11 @@ class RawField(Field):
         order = self.ORDER if hasattr(self, "ORDER") else self.order
         if fmt=='c' and isinstance(value,bytes):
             fmt = 's'
-        res = struct.pack(order + pfx + fmt, value)
+        if self.count > 0 and isinstance(value,(tuple,list)):
+            # an array of scalars is unpacked as a tuple
+            res = struct.pack(order + pfx + fmt, *value)
+        else:
+            res = struct.pack(order + pfx + fmt, value)
         return res
 
     def __repr__(self):
